@@ -209,7 +209,10 @@ func runC08(t *rapid.T, w *rep.Worker) {
 				continue
 			}
 			_, kn := wirex.ReadVarint(orig[it.Start:])
-			for _, nl := range []uint64{it.U + 1, uint64(len(orig)), 1 << 20, 1 << 24, 1 << 27, 1 << 30, 1<<31 - 1, 1 << 31, 1 << 63} {
+			for _, nl := range []uint64{it.U + 1, uint64(len(orig)), 1 << 20, 1 << 24, 1 << 27, 1 << 30, 1<<31 - 1, 1 << 31, 1 << 63,
+				// values that change sign or lose their high bits when a reader narrows them: 2^32-1, 2^32, 2^32 + the true
+				// length, 2^63-1, and the sign-extended forms of -1, -2 and the smallest int32
+				1<<32 - 1, 1 << 32, 1<<32 + it.U, 1<<63 - 1, 1<<64 - 1, 1<<64 - 2, 1<<64 - 1<<31} {
 				nb := append([]byte{}, orig[:it.Start+kn]...)
 				nb = wirex.AppendVarint(nb, nl)
 				nb = append(nb, orig[it.PayStart:]...)
